@@ -18,7 +18,7 @@ EXTENDS Integers, Sequences, FiniteSets, TLC, Json, IOUtils, SequencesExt
 
 Sizes == {0, 1, 2, 3, 17, 40}
 SecretClasses == {"hex", "nut10", "unicode", "long"}
-DleqClasses == {"none", "es", "esr"}       \* es: (e, s) without r
+DleqClasses == {"none", "es", "esr", "esr-even", "esr-odd"}       \* es: (e, s) without r; esr-even / esr-odd: only every other proof has one
 AmountClasses == {"small", "two63", "mixed"}
 Forms == {"hex", "cnothex", "idnothex"}    \* C / keyset id that are not hex (V4 carries bytes)
 
